@@ -71,7 +71,7 @@ def cases(tier):
     cs.append(C("b/rsub", "out = 3.0 - x", [("x", (2,))]))
     cs.append(C("b/rdiv", "out = 3.0 / x", [("x", (2,))]))
     # ------------------------------------------------------------------ sequential
-    shapes = [((2, 3), [None, 0, 1, -1, (0, 1), ()]), ((3,), [None, 0, -1]), ((), [None])]
+    shapes = [((2, 3), [None, 0, 1, -1, (0, 1), (), (-1,), (-2, -1), (1, 0)]), ((3,), [None, 0, -1, (-1,)]), ((), [None])]
     if T:
         shapes += [((2, 1, 2), [None, 1, (0, 2), -3, (1,), (0, 1, 2)])]
     for f in ("sum", "mean", "prod", "var", "std", "max", "min", "amax", "amin"):
